@@ -74,9 +74,14 @@ def program_events(ctx):
             if key not in seen:
                 seen.add(key); progs.append(p)
         sim_n += len(seen)
+    binp = ctx.go_build('tree')
+    # deep nesting (20..120 levels, a nested buffer half way down): the size dimension "depth", beyond what MC/GEN/SIM reach
+    dpath = os.path.join(ctx.build, 'tree_deep_progs.ndjson')
+    ctx.run([binp, 'deepgen', str(12 if th else 4), dpath, '2'], check=True, timeout=300)
+    deep = vlib.read_ndjson(dpath)
+    progs += deep
     cpath = os.path.join(ctx.build, 'tree_progs.ndjson')
     vlib.write_ndjson(cpath, progs)
-    binp = ctx.go_build('tree')
     e1 = os.path.join(ctx.build, 'tree_ev_prog.ndjson')
     ctx.run([binp, 'prog', cpath, e1], check=True, timeout=1200)
     e2 = os.path.join(ctx.build, 'tree_ev_rand.ndjson')
@@ -84,7 +89,7 @@ def program_events(ctx):
     evs = vlib.read_ndjson(e1) + vlib.read_ndjson(e2)
     for e in evs:
         e['hasprog'] = True
-    ctx.cov['tree_programs'] = dict(gen_exhaustive=gen_n, gen_forced=len(g2.printed), tlc_simulated=sim_n, go_random=len(evs) - len(progs))
+    ctx.cov['tree_programs'] = dict(gen_exhaustive=gen_n, gen_forced=len(g2.printed), tlc_simulated=sim_n, deep_nesting=len(deep), go_random=len(evs) - len(progs))
     return evs
 
 
